@@ -7,13 +7,15 @@ from decaylib import F, Gen, ancestors_sum, is_finite, within
 from oracle import DatasetView, LeanOracle, eval_adaptive
 
 NEEDS_DATASET = True
-TARGETS = ["RdVerif.Props.C03", "RdVerif.Props.C04", "RdVerif.Props.C01Oracle"]
+TARGETS = ["RdVerif.Props.C03", "RdVerif.Props.C04", "RdVerif.Props.C01Oracle", "RdVerif.Props.C03Oracle"]
 THEOREMS = ["RdVerif.C03.C03_integral", "RdVerif.C03.C03_stable", "RdVerif.C03.C03_atom_balance",
             "RdVerif.C04.exact_inverses", "RdVerif.C04.exact_diagonalises",
-            "RdVerif.C01.C01_oracle_sound"]
+            "RdVerif.C01.C01_oracle_sound", "RdVerif.C03.C03_oracle_sound", "RdVerif.C03.C03_oracle_cached",
+            "RdVerif.C01.C01_ln2_certified"]
 PARTIAL = {
     "C03_error_bound_partial": "double-precision deviation (<= 1e-11 x ancestors' atoms) and the 1e-13 relative accuracy of the "
-                               "high-precision class are checked per input against the verified oracle, not proved",
+                               "high-precision class are checked per input against the oracle cumEncl, which is PROVED to enclose the exact "
+                               "integral of activity (C03_oracle_sound); the rounding bound itself is not a theorem",
 }
 ASSUMPTIONS = ["IEEE-754 / SymPy arithmetic as in C01/C02"]
 TOL = Fraction(1, 10**11)
